@@ -196,6 +196,7 @@ def audit(P, ta, order, fails, op, ns=None, light=False):
     # an entry >= 100 is pool tree (entry - 100) accessioned through a text source, which
     # does not carry the tree weight
     ws = [None if e >= 100 else P.weights[e] for e in order]
+    order0 = [e for e in order if e < 100]
     order = [e % 100 for e in order]
     n = len(order)
     ign_len = bool(P.settings.get("ignore_edge_lengths", False))
@@ -399,6 +400,23 @@ def audit(P, ta, order, fails, op, ns=None, light=False):
                         break
             if P.rooted is not None and con.is_rooted is not P.rooted:
                 bad("consensus", "consensus is_rooted=%r for inputs with is_rooted=%r" % (con.is_rooted, P.rooted))
+            if th < 0.5 and n >= 2 and not sp and all(w is None for w in ws) and len(order0) == n:
+                # the statement of C06: the SAME consensus however the trees arrived.  Below one half several answers satisfy C05's
+                # clauses when incompatible splits tie, so the tree is compared with the one a collection filled in canonical
+                # (sorted) order gives -- ties must not be broken by arrival order
+                ref = P.new_array(explicit=True, ns=None)
+                try:
+                    for e in sorted(order0):
+                        ref.add_tree(P.tree(e))
+                    rc = ref.consensus_tree(min_freq=th, summarize_splits=False)
+                    a = Q.nontrivial(Q.tree_splits(con, r, L), L, r)
+                    b = Q.nontrivial(Q.tree_splits(rc, r, L), L, r)
+                    if a != b:
+                        bad("consensus.order-independent", "min_freq=%r: this arrival order gives splits %s, the same trees accessioned in sorted order give %s"
+                            % (th, sorted(Q.split_key(x, r) for x in a), sorted(Q.split_key(x, r) for x in b)))
+                except Exception as ex:  # noqa
+                    if not _lib_error(ex)[0]:
+                        raise
 
 
 # ----------------------------------------------------------------------------- histories
@@ -570,6 +588,7 @@ def _sumtrees_sched(case):
                   ultrametricity_precision=constants.DEFAULT_ULTRAMETRICITY_PRECISION, taxon_label_age_map=None,
                   log_frequency=case.get("log_frequency", 0), messenger=None, debug_mode=True)
         nproc = case["nproc"]
+        burn = case.get("tree_offset", 0)   # burn-in: the first `burn` trees of EVERY file are skipped
         sched = _Sched(case["assign"], case["arrival"], paths)
         saved = (sumtrees.multiprocessing, sumtrees.TreeAnalysisWorker.start, getattr(sumtrees.TreeAnalysisWorker, "terminate"))
         sumtrees.multiprocessing = _FakeMP(sched)
@@ -580,7 +599,7 @@ def _sumtrees_sched(case):
             tp = sumtrees.TreeProcessor(num_processes=nproc, **kw)
             ns = K.make_namespace(LABELS)
             try:
-                master = tp.parallel_analyze_trees(tree_sources=paths, schema="newick", taxon_namespace=ns)
+                master = tp.parallel_analyze_trees(tree_sources=paths, schema="newick", taxon_namespace=ns, tree_offset=burn)
             except Timeout:
                 raise
             except Exception as ex:
@@ -593,13 +612,13 @@ def _sumtrees_sched(case):
         finally:
             sumtrees.multiprocessing, sumtrees.TreeAnalysisWorker.start, sumtrees.TreeAnalysisWorker.terminate = saved
         if master is not None:
-            order = [i + 100 for f in sched.order_of_files for i in files[f]]
+            order = [i + 100 for f in sched.order_of_files for i in files[f][burn:]]
             audit(P, master, order, fails, "sumtrees.collation", ns=master.taxon_namespace)
             # ... and against the serial run of the same program
             tp1 = sumtrees.TreeProcessor(num_processes=1, **kw)
-            ser = tp1.serial_analyze_trees(tree_sources=paths, schema="newick", taxon_namespace=K.make_namespace(LABELS))
+            ser = tp1.serial_analyze_trees(tree_sources=paths, schema="newick", taxon_namespace=K.make_namespace(LABELS), tree_offset=burn)
             sfails = []
-            audit(P, ser, [i + 100 for idxs in files for i in idxs], sfails, "sumtrees.serial", ns=ser.taxon_namespace)
+            audit(P, ser, [i + 100 for idxs in files for i in idxs[burn:]], sfails, "sumtrees.serial", ns=ser.taxon_namespace)
             fails.extend(sfails)
             if not fails and not sfails:
                 a = sorted((Q.split_key(Q.decode(m, Q.bit_table(master.taxon_namespace), P.L, P.r), P.r), f)
@@ -715,7 +734,7 @@ def _sched_key(case):
     rt = {True: "R", False: "U", None: "N"}[case["rooted"]]
     return "sumtrees-sched|%s|annotated=%s|force=%s|files=%s|nproc=%d|assign=%s|arrival=%s|log=%s" % (
         rt, case.get("annotated", True), case.get("force"), "/".join(",".join("T%d" % i for i in f) for f in case["files"]),
-        case["nproc"], "".join(str(x) for x in case["assign"]), "".join(str(x) for x in case["arrival"]), case.get("log_frequency", 0))
+        case["nproc"], "".join(str(x) for x in case["assign"]), "".join(str(x) for x in case["arrival"]), "%s,burn=%s" % (case.get("log_frequency", 0), case.get("tree_offset", 0)))
 
 
 def _cli_key(case):
@@ -874,7 +893,7 @@ def gen_sched(quick, rng, scope):
                 yield dict(scope=scope, nontrivial=True,
                            case=dict(what="sumtrees-sched", rooted=rt if force is None else force, pool="plain", weights="none", settings={},
                                      files=files, annotated=annotated, force=force, nproc=nproc, assign=list(a), arrival=list(p),
-                                     log_frequency=(i % 2)))
+                                     log_frequency=(i % 2), tree_offset=(1 if i % 3 == 2 else 0)))
 
 
 def gen_cli(scope):
